@@ -5,3 +5,5 @@ package desync
 func verifYield(site string) {}
 
 func verifYieldID(site string, id ChunkID) {}
+
+func verifPar(c *pChunker, ev string, a, b uint64, null bool) {}
